@@ -47,6 +47,10 @@ Qed.
 Lemma vp_eqb p q : val_eqb (vp p) (vp q) = path_eqb p q.
 Proof. cbn. apply pstr_eqb. Qed.
 
+(* a path string is not a tagged library object: its rich comparisons are MiniPy's own (Interp's ECmp clause) *)
+Lemma foreign_vp p : foreign (vp p) = false.
+Proof. reflexivity. Qed.
+
 Lemma path_eqb_sym p q : path_eqb p q = path_eqb q p.
 Proof.
   destruct (path_eqb q p) eqn:E.
@@ -482,6 +486,7 @@ Ltac rw1 :=
   | |- context [(Z.of_nat (S _) - 1)%Z] => rewrite znat_S_sub1
   | |- context [(Z.of_nat _ =? Z.of_nat _)%Z] => rewrite zeqb_nat
   | |- context [S _ - 1] => rewrite S_sub1
+  | |- context [foreign (vp _)] => rewrite foreign_vp
   | |- context [val_eqb (vp _) (vp _)] => rewrite vp_eqb
   | |- context [truthy (VSet (vps _))] => rewrite truthy_vps
   | |- context [match vps _ with [] => false | _ :: _ => true end] => rewrite vps_nonempty
